@@ -62,6 +62,32 @@ def obligations_by_site(runs):
     return by
 
 
+# helpers whose constants are all sized by one width parameter (confirmed by reading): function -> parameter name
+WIDTH_PARAMETRIC = {"translator::aarch64::semantics::shift": "out_bits"}
+
+
+def r2b(db, rep, rid="R2b"):
+    r = rep.rule(rid, "K9", "width-parametric helpers: every IL constant such a helper builds is sized by its width parameter; a "
+                 "literal width meets an operand of the caller's width in a binary constructor and fails with a sort error "
+                 "(unwrapped: a panic) for the other operand sizes")
+    for fn, pname in sorted(WIDTH_PARAMETRIC.items()):
+        body = db.mir.get(fn)
+        rep.anchor(body is not None, fn)
+        tm = terms_of(db, fn, {})
+        pl = None
+        for nm, plc in body.get("names", []):
+            if nm == pname and len(plc) == 1 and plc[0] <= body["argc"]:
+                pl = plc[0]
+        rep.anchor(pl is not None, "%s: parameter %s" % (fn, pname))
+        sites = [(t, tm.operand(t["args"][1])) for i, t in mir_calls(body) if (mir_callee(t) or "") == "il::expr_const"]
+        by_param = [x for x in sites if x[1] == ("param", pl)]
+        rep.anchor(len(by_param) >= 3, "%s sizes its constants with %s (found %d sites)" % (fn, pname, len(by_param)))
+        lit = [x for x in sites if isinstance(x[1], tuple) and x[1][0] == "const"]
+        r.decide(not lit, "%s|constants_sized_by_%s" % (last_seg(fn), pname), db.where(body, lit[0][0].get("l")) if lit else db.where(body),
+                 "%s builds a constant of the literal width %s; its other constants are %s wide: for operands of another width the "
+                 "constructor returns a sort error" % (last_seg(fn), lit[0][1][1] if lit else "", pname))
+
+
 def r1o(db, rep, rid="R1o"):
     r = rep.rule(rid, "K8", "load address at the top of the address space: successor and instruction addresses derived from the block's "
                  "load address are computed without an overflow check that panics (debug builds check `address + offset`)")
@@ -111,6 +137,7 @@ def run(db, rep, feat, tier):
     r6(db, rep)
     r1(db, rep, runs)
     r1o(db, rep)
+    r2b(db, rep)
 
 
 # ------------------------------------------------------------------------------------------------ R2
